@@ -23,6 +23,7 @@ PROPS["C15"] = {
         Job("soyhtml", "H_textlex", "0..3,0..2", workers=16, maxfan=16),
         Job("soyhtml", "H_textlex", "0..2,3..11", workers=16, maxfan=16, note="after commands holding comments"),
         Job("soyhtml", "H_textlex", "3..4,10", workers=16, maxfan=16, note="message text"),
+        Job("soyhtml", "H_textlex", "0..4,12", workers=16, maxfan=16, note="message text with capital letters, after the message pass"),
         Job("soyhtml", "H_literal", "0..3", workers=8, maxfan=16),
         Job("parse", "H_rawtext", "5", tier="thorough", workers=16),
         Job("soyhtml", "H_textlex", "4,0..2", tier="thorough", workers=16, maxfan=16),
@@ -64,6 +65,7 @@ PROPS["C12"] = {
         Job("soyhtml", "H_fault", "0..14,0..3,0", workers=16),
         Job("soyhtml", "H_fault", "0..14,0..1,1", workers=16),
         Job("soyhtml", "H_fault", "0..14,0..3,2..3", workers=16, maxfan=300),
+        Job("soyhtml", "H_fault", "0..14,0..1,4", workers=16, maxfan=300, note="one transient failure reported as a Temporary/Timeout error"),
         Job("soyhtml", "H_fault", "7..8,4,0..3", workers=8, maxfan=300, note="untranslated plural, n=1"),
         Job("soyhtml", "H_fault", "0..14,2..3,1", tier="thorough", workers=16),
     ],
@@ -118,7 +120,7 @@ PROPS["C10"] = {
         Job("soymsg", "H_fp", "0..25", workers=8, qtimeout=3000, allow_inconclusive=True),
         Job("soymsg", "H_id", "0..4,0..2", workers=8, qtimeout=3000, allow_inconclusive=True),
         Job("soymsg", "H_idMeaning", "0..7,0..2", workers=8, qtimeout=3000, allow_inconclusive=True),
-        Job("soymsg", "H_names", "0..16,-1..4", workers=16),
+        Job("soymsg", "H_names", "0..19,-1..4", workers=16),
         Job(".", "H_compileRace", "0,0", workers=2, note="ids of two concurrent compilations"),
         Job(".", "H_compileRace", "0,7", workers=2, note="ids of two concurrent compilations"),
         Job("soymsg", "H_baseName", "1..6", workers=16, maxfan=16),
@@ -198,8 +200,10 @@ PROPS["C06"] = {
         Job("soyhtml", "H_directive", "0..11,0..2,0..8,0..8,0..2", workers=16, allow_unsupported=(r"encoding/json|reflect|strconv\.FormatFloat",)),
         Job("soyhtml", "H_renderFail", "0..11,0..2,false", workers=8),
         Job("soyhtml", "H_renderFail", "0..11,0..2,true", workers=8),
-        Job(".", "H_globals", "0..28,true", workers=8),
-        Job(".", "H_globals", "0..28,false", workers=4),
+        Job(".", "H_globals", "0..31,true", workers=8),
+        Job(".", "H_globals", "0..31,false", workers=4),
+        Job(".", "H_globalsSeq", "0..31,0..5,false", workers=8, note="definitions that depend on one another"),
+        Job(".", "H_globalsSeq", "0..31,0..5,true", workers=8, note="a name defined twice"),
         Job(".", "H_globalsSym", "0..23,0..2", workers=16, maxsteps=400000),
         Job("soyhtml", "H_staleTranslation", "0..3,0..2", workers=8, maxsteps=400000),
         Job("soyhtml", "H_afterNotFound", "0..2", workers=4, maxsteps=400000),
@@ -234,7 +238,10 @@ PROPS["C08"] = {
 
 # ---------------------------------------------------------------- C09
 PROPS["C09"] = {
-    "viol_filter": r"^(?!C13:|synchronised .* to frozen global)",
+    # a synchronised write (mutex / Once / sync.Map / atomic.Value) to package-level state or to the
+    # renderer is no data race by itself: the happens-before check (H_renderRace, H_compileRace) and
+    # the output oracles decide (C08 keeps reporting writes to the compiled bundle, as its text demands)
+    "viol_filter": r"^(?!C13:|synchronised .* to frozen )",
     "jobs": [
         Job("soyhtml", "H_pure", "0..2,0..1,false,0..5", workers=8),
         Job("soyhtml", "H_pure", "0..2,0..1,true,0..7", workers=8),
@@ -242,6 +249,7 @@ PROPS["C09"] = {
         Job("soyhtml", "H_pure", "4,0,false,0..5", workers=8, note="deep recursion and data= maps with params"),
         Job(".", "H_renderAfterJS", "0..1,false", workers=8, note="JS generation between renders"),
         Job(".", "H_renderAfterJS", "0..1,true", workers=8, note="JS generation between renders"),
+        Job("soyhtml", "H_renderRace", "0..4,0,0..2,0..1", workers=16, note="two renders at once on a cold bundle, happens-before check"),
         Job("soyjs", "H_jsPure", "0..2,false", workers=2),
         Job("soyjs", "H_jsPure", "0..2,true", workers=2),
         Job("parse", "H_parseRace", "0..8", workers=8, note="happens-before check of scanner/parser memory accesses"),
@@ -267,8 +275,9 @@ PROPS["C13"] = {
         Job("soyjs", "H_jsAfterFailure", "0..2,0..2,true", workers=4, note="generation after a failed generation"),
         Job("soyjs", "H_jsOrder", "0..4,-1..3,false", workers=8, timeout=300),
         Job("soyjs", "H_jsOrder", "0..4,-1..3,true", workers=8, timeout=300),
-        Job(".", "H_bundle", "0..16,0", workers=8, timeout=400, per_map_site=r"^(ast|data|parse|parsepasses|soyhtml|soyjs|soymsg|template|bundle|globals)"),
-        Job(".", "H_bundle", "0..16,1..5", workers=8, timeout=400, note="file insertion orders"),
+        Job(".", "H_bundleFirst", "0..1", workers=2, note="first compilation of a process, both file orders"),
+        Job(".", "H_bundle", "0..17,0", workers=8, timeout=400, per_map_site=r"^(ast|data|parse|parsepasses|soyhtml|soyjs|soymsg|template|bundle|globals)"),
+        Job(".", "H_bundle", "0..17,1..5", workers=8, timeout=400, note="file insertion orders"),
     ],
     "bounds": "real soy.NewBundle().AddTemplateString(..).AddGlobalsMap(..).Compile() + Tofu rendering + soyjs.Write (ES5 and ES6) for 8 bundles, each compiled twice from the same Bundle object and a third time through CompileToTofu (valid with messages/globals/map literals/cross-file calls; rejected by the data-ref checker, the parser, the globals pass; two independent errors; duplicate template name; header params without soydoc); every map-range site reached in the soy packages is given an arbitrary iteration order, one site at a time (all permutations up to 5 keys; for larger maps an arbitrary key first and an arbitrary key last); all 6 insertion orders of up to 3 files",
     "outside": "two or more loops permuted simultaneously (order dependence that needs a particular combination); bundles outside the dictionary; file-system loading and the watcher",
@@ -289,6 +298,7 @@ PROPS["C17"] = {
         Job("parse", "H_roundOps", "0..16,0..16,0..2", workers=16),
         Job("parse", "H_roundPrint", "0..19,0..3", workers=8),
         Job("parse", "H_roundPrintOps", "0..16,0..16,0..2", workers=16),
+        Job("parse", "H_roundParsed", "0..33,0..10", workers=16, note="from source: special words as function names, globals and keys"),
     ],
     "bounds": "expression trees: every leaf kind (ints incl. negative and 2^53, floats incl. integral and exponent forms and 16 boundary magnitudes (2^63, 2^64, 1e15..1e22, 1e-7, max, min subnormal), bool, null, strings of 1 symbolic byte quoted by the real quoteString, data references with every access kind, globals, function calls, list and map literals, empty literals) alone and under negate/not/index/call/list/map/access-chain wrappers; every operator over every pair of 16 operand spellings (null-safe and plain accesses, calls, literals, signs, globals, $ij); flat chains of 150 operands under each binary operator and of 150 accesses; every operator inside each bracketing wrapper (with a symbolic string operand); string literals and map keys of any valid UTF-8 of <= 4 bytes; every operator (14 binary, 2 unary, ternary) over every operator in every operand position (depth 2); print commands with 0..2 directives with arguments; print commands over every operator pair (they start with parentheses, signs, keywords)",
     "outside": "nesting depth > 2 of operators (parenthesisation is decided pairwise, so depth 2 covers each parent/child combination once); strings longer than 4 bytes",
@@ -306,6 +316,7 @@ PROPS["C19"] = {
         Job("soyhtml", "H_rendererr", "0..2,4,true", workers=8, note="both files in one namespace"),
         Job("soyhtml", "H_writeerrpos", "3", workers=8),
         Job("soyhtml", "H_rendererrKinds", "1..2,0..7", workers=8),
+        Job("soyhtml", "H_rendererrAttr", "0..6", workers=8, note="failing expression inside a quoted attribute"),
         Job("soyhtml", "H_rendererrMsg", "4,false", workers=4),
         Job("soyhtml", "H_rendererrMsg", "4,true", workers=4),
         Job("parse", "H_parseCtx", "0..81,0..1,false", workers=16, maxsteps=300000),
@@ -395,6 +406,8 @@ PROPS["C07"] = {
     "jobs": [
         Job("soyhtml", "H_datarefs", "2,2,true,true", workers=16, timeout=900),
         Job("soyhtml", "H_datarefsLate", "1,2,1", workers=16, timeout=900),
+        Job("soyhtml", "H_datarefsCalls", "1,3,false,false", workers=16, timeout=900, note="lets and loop variables named like callee params around data=all calls"),
+        Job("soyhtml", "H_datarefsCalls", "1,3,true,false", workers=16, timeout=900),
         Job("soyhtml", "H_datarefsBind", "2,3,false,false", workers=16, timeout=900),
         Job("soyhtml", "H_datarefsBind", "2,3,true,false", workers=16, timeout=900),
         Job("soyhtml", "H_datarefsBind", "2,3,true,true", workers=16, timeout=900),
